@@ -1,13 +1,17 @@
 package pure
 
 import (
+	"bytes"
+	"context"
 	"fmt"
 	"math/big"
 	"strings"
 	"testing"
 
+	"github.com/cosmos/cosmos-sdk/client"
 	"pgregory.net/rapid"
 
+	undcmd "github.com/unification-com/mainchain/cmd/und/cmd"
 	undtypes "github.com/unification-com/mainchain/types"
 
 	"verifharness/sim"
@@ -38,19 +42,48 @@ func exactNundToFund(amount string) string {
 	return fmt.Sprintf("%s.%09d", q.String(), r.Int64()) + "fund"
 }
 
+// convertViaCommand runs the node's `convert [amount] [from] [to]` command in-process and returns the
+// result it prints ("<amount><from> = <result>\n").
+func convertViaCommand(amount, from, to string) (string, error) {
+	cmd := undcmd.GetDenomConversionCmd()
+	var out bytes.Buffer
+	cctx := client.Context{}.WithOutput(&out)
+	cmd.SetOut(&out)
+	cmd.SetErr(&out)
+	cmd.SetArgs([]string{amount, from, to})
+	cmd.SilenceUsage, cmd.SilenceErrors = true, true
+	if err := cmd.ExecuteContext(context.WithValue(context.Background(), client.ClientContextKey, &cctx)); err != nil {
+		return "", err
+	}
+	line := strings.TrimSuffix(out.String(), "\n")
+	prefix := amount + from + " = "
+	if !strings.HasPrefix(line, prefix) || strings.Contains(line, "\n") {
+		return "", fmt.Errorf("unexpected output %q", out.String())
+	}
+	return strings.TrimPrefix(line, prefix), nil
+}
+
+// checkC19 checks the conversion function and, through it, what the command prints.
 func checkC19(in c19Input) string {
+	if msg := checkC19With(in, undtypes.ConvertUndDenomination, "ConvertUndDenomination"); msg != "" {
+		return msg
+	}
+	return checkC19With(in, convertViaCommand, "`und convert`")
+}
+
+func checkC19With(in c19Input, convert func(amount, from, to string) (string, error), via string) string {
 	switch in.Dir {
 	case "fund2nund":
-		got, err := undtypes.ConvertUndDenomination(in.Amount, "fund", "nund")
+		got, err := convert(in.Amount, "fund", "nund")
 		if err != nil {
-			return fmt.Sprintf("convert %q fund->nund failed: %v", in.Amount, err)
+			return fmt.Sprintf("%s: convert %q fund->nund failed: %v", via, in.Amount, err)
 		}
 		want := exactFundToNund(in.Amount)
 		if got != want {
-			return fmt.Sprintf("convert %s fund -> %s, exact result is %s", in.Amount, got, want)
+			return fmt.Sprintf("%s: convert %s fund -> %s, exact result is %s", via, in.Amount, got, want)
 		}
 		// there and back: the canonical nine-decimal form of the input
-		back, err := undtypes.ConvertUndDenomination(strings.TrimSuffix(got, "nund"), "nund", "fund")
+		back, err := convert(strings.TrimSuffix(got, "nund"), "nund", "fund")
 		if err != nil {
 			return fmt.Sprintf("convert back %q nund->fund failed: %v", got, err)
 		}
@@ -58,14 +91,14 @@ func checkC19(in c19Input) string {
 			return fmt.Sprintf("%s fund -> %s -> %s, expected %s", in.Amount, got, back, wantBack)
 		}
 	case "nund2fund":
-		got, err := undtypes.ConvertUndDenomination(in.Amount, "nund", "fund")
+		got, err := convert(in.Amount, "nund", "fund")
 		if err != nil {
-			return fmt.Sprintf("convert %q nund->fund failed: %v", in.Amount, err)
+			return fmt.Sprintf("%s: convert %q nund->fund failed: %v", via, in.Amount, err)
 		}
 		if want := exactNundToFund(in.Amount); got != want {
-			return fmt.Sprintf("convert %s nund -> %s, exact result is %s", in.Amount, got, want)
+			return fmt.Sprintf("%s: convert %s nund -> %s, exact result is %s", via, in.Amount, got, want)
 		}
-		back, err := undtypes.ConvertUndDenomination(strings.TrimSuffix(got, "fund"), "fund", "nund")
+		back, err := convert(strings.TrimSuffix(got, "fund"), "fund", "nund")
 		if err != nil {
 			return fmt.Sprintf("convert back %q fund->nund failed: %v", got, err)
 		}
